@@ -96,6 +96,9 @@ fn main() {
         "c02" => tmon::c02::run(&ctx),
         "c05" => tmon::c05::run(&ctx),
         "c06" => tmon::c06::run(&ctx),
+        "c07" => tmon::c07::run(&ctx),
+        "c09" => tmon::c09::run(&ctx),
+        "c10" => tmon::c10::run(&ctx),
         _ => {
             let _ = rest;
             usage()
